@@ -594,7 +594,7 @@ class Ctx:
             for (_, pl, rv) in b.stmts:
                 for (l, place) in __import__('core').rvalue_reads(rv):
                     for pe in place[1]:
-                        if isinstance(pe, tuple) and pe[0] == 'f' and pe[2] == fld and pe[3] and pe[3].endswith('::' + tyname) and not pl[1]:
+                        if isinstance(pe, tuple) and pe[0] == 'f' and pe[2] == fld and pe[3] and glob_match(tyname, pe[3].rsplit('::', 1)[-1]) and not pl[1]:
                             flag_locals.add(pl[0])
         for l in flag_locals:
             tr = track_result(body, l, -1 if want_false else +1, 'bool')
